@@ -177,6 +177,7 @@ static Plan gen_c06(uint64_t seed, const std::string &tier) {
         std::string m = "Mk" + std::to_string(i) + "q7Z9w";
         ExecOp e; e.api = (int)r.below(2); e.err = r.chance(1, 2) ? 2 : 13; e.ret = -1;
         e.path = "/p/" + m + "_" + gen_token(r, 0, 20, 0);
+        if (r.chance(1, 4)) { static const char *pc[] = {"%s", "%m", "%%", "%d", "%20f", "%", "%5$s", "100%"}; e.path += pc[r.below(8)]; if (r.chance(1, 2)) e.path += gen_token(r, 0, 5, 0); }   // paths are data, never formats
         int shape = (int)r.below(9);
         if (shape == 0) e.argv_null = true;
         else if (shape == 1) {}
